@@ -44,6 +44,12 @@ for which the reference skips.  Oracle: while the reference yields no value the 
 the value it held (default / last mirrored value / value held when it was relinked); as soon as
 the source moves to a value for which the reference resolves the parameter mirrors it; override
 and relink end the link as for every other kind.
+
+Two further families live in bounded/c08_ext.py (see its docstring): RE -- re-entrant syncs (links of
+one object that feed each other: t.a <- s.x, t.b <- bind(f, s.x, t.a), chains a -> b -> c, and a user
+watcher on a linked parameter that changes the source again while the sync is being delivered) and
+CK -- linked parameters declared constant=True (a refused assignment of a plain value / a new
+reference must change nothing).
 """
 import itertools
 import logging
@@ -56,6 +62,7 @@ import warnings
 from concurrent.futures import ProcessPoolExecutor
 
 from bounded._api import Bounded, REPLAY_HEADER
+from bounded import c08_ext
 
 PRELUDE = '''import logging, warnings
 import param
@@ -427,6 +434,10 @@ MAX_PER_CLAUSE = 24
 CONFIRM = True      # scratch mutation harnesses (in-memory patches) switch the confirmation off
 
 
+REPO_LINE = "sys.path.insert(0, '/repo')\n"
+REPO_LINE_ENV = "sys.path.insert(0, __import__('os').environ.get('PYVC_REPO', '/repo'))   # the tree under check\n"
+
+
 def confirm(src):
     if not CONFIRM:
         return True
@@ -434,7 +445,8 @@ def confirm(src):
         f.write(src)
         path = f.name
     try:
-        env = dict(os.environ, PYTHONPATH=os.environ.get('PYVC_REPO', '/repo'))
+        env = dict(os.environ, PYTHONPATH=os.environ.get('PYVC_REPO', '/repo'),
+                   PYVC_REPO=os.environ.get('PYVC_REPO', '/repo'))
         r = subprocess.run([sys.executable, path], env=env, capture_output=True, text=True, timeout=120)
         return r.returncode == 1 and 'REPRODUCED:' in r.stdout
     except Exception:
@@ -536,7 +548,8 @@ def _run(tier, seed):
               "(so the FIRST resolution of the link yields no value) x p2 {none, P@s2, skipping bind@s2, "
               "skipping bind@s1} x link mode x relink targets {skipping bind, P}; histories additionally over "
               "{z1, z2: move a source to a value for which the reference skips}. "
-              "A case = (configuration, history of maximal length); shorter histories are its prefixes"),
+              "A case = (configuration, history of maximal length); shorter histories are its prefixes. "
+              + c08_ext.RULE),
         bound=("quick: all histories of length <= 2 over 8 operations on the 162 core configurations and a seeded "
                "1/3 of the other 744 + a seeded 1/8 sample of the length-3 histories on the core; skip family: all "
                "histories of length <= 2 over 10 operations on %d configurations" % len(skip_configs('quick'))
@@ -545,7 +558,8 @@ def _run(tier, seed):
                "configurations (k1 in {P,B,R,L,K,X}, k2 in {none, L@s2}, mode ctor/later, a1 in {P@s2, L@s1}, a2=P@s1); "
                "skip family: all histories of length <= 3 over 10 operations on the %d configurations of the quick "
                "tier, length <= 2 on the other %d (second relink target of p2, shared-source p2, nested_refs=False)"
-               % (len(skip_configs('quick')), len(skip_configs('thorough')) - len(skip_configs('quick')))))
+               % (len(skip_configs('quick')), len(skip_configs('thorough')) - len(skip_configs('quick'))))
+        + '; ' + c08_ext.bound_text(tier))
     warnings.simplefilter('ignore')
     cfgs = configs()
     rnd = random.Random(2000 + seed)
@@ -575,10 +589,25 @@ def _run(tier, seed):
     rnd.shuffle(tasks)
     nchunk = 512
     chunks = [tasks[i::nchunk] for i in range(nchunk)]
+    xtasks = c08_ext.tasks(tier, seed)
+    if tier == 'quick':
+        B.exhaustive = False
+    nx = max(1, len(xtasks) // 40)
+    xchunks = [xtasks[i::nx] for i in range(nx)]
     allv = []
+    xallv = []
     samples = []
     with ProcessPoolExecutor(max_workers=min(16, os.cpu_count() or 4)) as ex:
+        xfuts = [ex.submit(c08_ext.run_chunk, c) for c in xchunks if c]
         futs = [ex.submit(run_chunk, c) for c in chunks if c]
+        for fu in xfuts:
+            for key, nval, nleak, nref, viols in fu.result():
+                B.case(key=key)
+                B.checked('C08/mirror/value == resolve(reference)', nval)
+                B.checked('C08/override-relink/old sources keep no watcher of the target', nleak)
+                if nref:
+                    B.checked(c08_ext.C_REFUSED, nref)
+                xallv += viols
         for fu in futs:
             for cfg, h, nval, nleak, viols in fu.result():
                 B.case(key=cfg_str(cfg) + ' hist=' + ','.join(h))
@@ -623,6 +652,7 @@ def _run(tier, seed):
         reports.append((clause, witness, replay_of(rep, clause, witness), len(groups[key]),
                         'links at the failing check: %r; %d failing cases in this class' % (rep['links'], len(groups[key])),
                         (nsteps, cfg_rank(rep['cfg']))))
+    reports += c08_ext.reports(xallv)
     reports.sort(key=lambda r: (r[0], r[5], r[1]))
     per_clause, kept = {}, []
     for r in reports:
@@ -630,12 +660,12 @@ def _run(tier, seed):
         if per_clause[r[0]] <= MAX_PER_CLAUSE:
             kept.append(r)
     with ProcessPoolExecutor(max_workers=8) as ex:
-        oks = list(ex.map(confirm, [r[2] for r in kept]))
+        oks = list(ex.map(confirm, [r[2].replace(REPO_LINE, REPO_LINE_ENV) for r in kept]))
     for (clause, witness, replay, n, detail, _s), ok in zip(kept, oks):
         if not ok:
             B.note('UNCONFIRMED (stand-alone replay did not reproduce, not reported): %s | %s' % (clause, witness))
             continue
-        B.violation(clause, witness, detail=detail, replay=replay)
+        B.violation(clause, witness, detail=detail, replay=replay.replace(REPO_LINE, REPO_LINE_ENV))
         B.violations[-1]['count'] = n
     for clause, n in sorted(per_clause.items()):
         if n > MAX_PER_CLAUSE:
